@@ -100,6 +100,7 @@ impl Entry {
 pub struct Pre {
     pub dest: Option<FileState>,
     pub list: Option<BTreeMap<String, Rec>>,
+    pub lib_list: Option<Value>, // what the library's own listing said before an abandoned writer (entries and error items)
 }
 
 #[derive(Clone, Default)]
@@ -133,6 +134,7 @@ pub struct Interp<'a> {
     pub targets: BTreeMap<PathBuf, Option<Vec<u8>>>, // files under $T as the environment last wrote them
     pub target_modes: BTreeMap<PathBuf, Option<u32>>, // ... and their permission bits
     pub dests: BTreeMap<PathBuf, Vec<u8>>, // what successful extractions delivered: the caller's files from then on
+    pub pre_lib_list: Option<Value>,
     pub cache_dests: BTreeSet<String>, // names in the cache root that the scenario itself used as extraction destinations
     pub allow_tmp_leftovers: bool,
     pub deferred: bool, // results are judged after the whole program ran (sysim): no peeking at the directory as it is now
@@ -217,6 +219,7 @@ impl<'a> Interp<'a> {
             targets: BTreeMap::new(),
             target_modes: BTreeMap::new(),
             dests: BTreeMap::new(),
+            pre_lib_list: None,
             cache_dests: BTreeSet::new(),
             allow_tmp_leftovers: false,
             deferred: false,
@@ -682,8 +685,11 @@ impl<'a> Interp<'a> {
         }
         let op = Value::Object(op);
         let dest = st.get("to").and_then(|t| t.as_str()).map(|t| file_state(&pdec(&self.subst(t))));
-        let list = if opname == "write" && matches!(st["end"].as_str(), Some("drop") | Some("pending_drop") | Some("close_drop")) { Some(disk::scan(&self.cache).live_entries()) } else { None };
-        (bin, op, Pre { dest, list })
+        let dropped = opname == "write" && matches!(st["end"].as_str(), Some("drop") | Some("pending_drop") | Some("close_drop"));
+        let list = if dropped { Some(disk::scan(&self.cache).live_entries()) } else { None };
+        // (only where results are judged at once: under the scheduler the listing would be taken before the program runs)
+        let lib_list = if dropped && !self.deferred && !self.lenient { Some(self.library_listing()) } else { None };
+        (bin, op, Pre { dest, list, lib_list })
     }
 
     pub fn api_step(&mut self, st: &Value) {
@@ -704,6 +710,7 @@ impl<'a> Interp<'a> {
         let r = r.clone();
         let pre_dest = pre.dest;
         let pre_list = pre.list;
+        self.pre_lib_list = pre.lib_list;
         if let Some(c) = st.get("clock_at_commit").and_then(|c| c.as_str()) {
             // the worker moved its own clock right before commit(); if the commit was reached the
             // simulated wall clock is now that instant. Either way re-sync the worker before its next call.
@@ -956,6 +963,15 @@ impl<'a> Interp<'a> {
         // the model is left unchanged; reality may have stored content (harmless) - resync content presence lazily
     }
 
+    /// keys listed (sorted) and the number of error items, through the sync flavour
+    fn library_listing(&mut self) -> Value {
+        let op = json!({"op":"list","fl":"sync","cache":self.cache_arg});
+        let r = self.call("sync", &op);
+        let mut keys: Vec<String> = r["entries"].as_array().map(|a| a.iter().filter_map(|e| e["key"].as_str().map(|s| s.to_string())).collect()).unwrap_or_default();
+        keys.sort();
+        json!({"keys": keys, "errs": r["errs"].as_array().map(|a| a.len()).unwrap_or(0), "r": r["r"]})
+    }
+
     /// C14: after an abandoned / rejected writer nothing may change in lookups/listing, and tmp/ drains.
     fn check_no_trace(&mut self, st: &Value, pre_list: Option<BTreeMap<String, Rec>>, how: &str) {
         if self.deferred {
@@ -980,6 +996,13 @@ impl<'a> Interp<'a> {
             // that maps nothing has no business creating it (a listing of the cache changes from "no index" to "empty")
             self.viol("abandon-trace", format!("abandon-trace/index-dir-created/{}/{}", how, flav), format!("a {} writer created the index directory of a cache that had none", how));
             self.m.index_dir = true;
+        }
+        if let Some(before) = self.pre_lib_list.take() {
+            // the library's own listing (entries and error items) is the same before and after
+            let after = self.library_listing();
+            if before != after {
+                self.viol("abandon-trace", format!("abandon-trace/listing-changed/{}/{}", how, flav), format!("the listing was {} before the {} writer and is {} after it", before, how, after));
+            }
         }
         if let Some(pre) = pre_list {
             let post = disk::scan(&self.cache).live_entries();
